@@ -5,6 +5,7 @@ import (
 	"fmt"
 	"os"
 	"path/filepath"
+	"regexp"
 	"strings"
 
 	simrt "verif.local/simrt"
@@ -109,6 +110,7 @@ func cmdSelftestFS(args []string) {
 			os.RemoveAll(dir)
 			n++
 			simRes.SerErr, realRes.SerErr = "", "" // pool recycling (not the disk) decides this field
+			stripExamples(&simRes, &realRes)
 			if same, why := simRes.Same(&realRes); !same {
 				fail("fault-free", &p, &simRes, &realRes, why)
 			}
@@ -182,6 +184,7 @@ func cmdSelftestFS(args []string) {
 					}
 					faults++
 					simRes.SerErr, realRes.SerErr = "", ""
+					stripExamples(&simRes, &realRes)
 					if same, why := simRes.Same(&realRes); !same {
 						fail(v.name+"@"+e.Op, &q, &simRes, &realRes, why)
 					}
@@ -223,5 +226,17 @@ func cmdSelftestDet(args []string) {
 		idx := int(splitmix(*seed^0xabcdef, uint64(i)) % uint64(total))
 		vv := r.RunCase(*seed, idx)
 		fmt.Printf("case %d idx %d violations %d execs %d trace %016x\n", i, idx, len(vv), traceExecs, traceAcc)
+	}
+}
+
+var exampleRe = regexp.MustCompile(`"example":\s*"(?:[^"\\]|\\.)*"`)
+
+// stripExamples removes generated examples from the JSON of both results: the real run iterates
+// maps in the runtime's order, and examples of regex types depend on that order (a known finding
+// of C03 that has nothing to do with the disk).
+func stripExamples(rr ...*Result) {
+	for _, r := range rr {
+		r.JSON = exampleRe.ReplaceAllString(r.JSON, `"example":""`)
+		r.JSONIndent = exampleRe.ReplaceAllString(r.JSONIndent, `"example":""`)
 	}
 }
